@@ -684,9 +684,12 @@ func (cr *concRun) client(id int, r *gen.Rng, nops int, groups int64, wg *sync.W
 			cr.after(err, in)
 			continue
 		case 15: // insert of ONE document under a contended, caller-supplied id
-			uid := cr.hotIDs[r.Intn(len(cr.hotIDs))]
+			hot := r.Intn(len(cr.hotIDs))
+			uid := cr.hotIDs[hot]
 			seq++
-			in = cop{Kind: "insert", IDs: []string{uid}, G: int64(r.Intn(int(groups))), Val: cr.nextVal(), Tag: fmt.Sprintf("c%d-%d-n1", id, seq)}
+			// the group of a contended id is fixed: no point write of these histories ever moves a document from one
+			// group to another (that interleaving is driven on purpose, once, by the conc-phantom engine)
+			in = cop{Kind: "insert", IDs: []string{uid}, G: int64(hot) % groups, Val: cr.nextVal(), Tag: fmt.Sprintf("c%d-%d-n1", id, seq)}
 			call := cr.tick()
 			err := Do(func() error { return db.Insert("k", mkConcDoc(uid, cdoc{g: in.G, p: in.Val, b: -1, tag: in.Tag})) })
 			out = cout{Class: classifyConc(err)}
@@ -1663,4 +1666,135 @@ func RunConcRecency(c *core.Ctx) {
 		return
 	}
 	c.Cell("conc-recency|%s|readers%d", backendClass(backend), readers)
+}
+
+// RunConcPhantom forces one interleaving on a badger store behind the monitor: a bulk Update selects "g == 1"
+// through the index on g and is held just before its Commit; meanwhile ReplaceById moves another document INTO
+// that range (g: 0 -> 1) and commits, and a reader takes a snapshot; then the bulk Update is released. If the
+// Update reports success, one sequential order must explain everything: either it came before the Replace - then
+// the snapshot, taken after the Replace, shows its effect - or after it - then the moved document is updated too.
+// (On bbolt the interleaving cannot exist: a write transaction holds the single writer lock from Begin on.)
+func RunConcPhantom(c *core.Ctx) {
+	r := c.R
+	backend := []string{BadgerMem, BadgerDisk}[c.Case%2]
+	h, err := Open(c, backend, "")
+	if err != nil {
+		c.Violate("open-error", "opening %s failed: %v", backend, err)
+		return
+	}
+	defer h.Destroy()
+	c.Backend = backend
+	const name = "ph"
+	ids := []string{r.UUID(), r.UUID(), r.UUID(), r.UUID()}
+	mk := func(id string, g, b int64) *document.Document {
+		d := document.NewDocument()
+		d.Set("_id", id)
+		d.Set("g", g)
+		d.Set("b", b)
+		return d
+	}
+	if err := h.DB.CreateCollection(name); err != nil {
+		c.Violate("setup", "%v", err)
+		return
+	}
+	if err := h.DB.Insert(name, mk(ids[0], 1, -1), mk(ids[1], 0, -1), mk(ids[2], 1, -1), mk(ids[3], 2, -1)); err != nil {
+		c.Violate("setup", "%v", err)
+		return
+	}
+	indexed := c.Case%4 < 2
+	if indexed {
+		if err := h.DB.CreateIndex(name, "g"); err != nil {
+			c.Violate("setup", "%v", err)
+			return
+		}
+	}
+	read := func() (map[string][2]int64, error) {
+		docs, err := h.DB.FindAll(query.NewQuery(name))
+		out := map[string][2]int64{}
+		for _, d := range docs {
+			g, _ := d.Get("g").(int64)
+			b, _ := d.Get("b").(int64)
+			out[d.ObjectId()] = [2]int64{g, b}
+		}
+		return out, err
+	}
+	atCommit := make(chan struct{})
+	resume := make(chan struct{})
+	var updater int64
+	var once sync.Once
+	h.MS.SetHook(func(k mon.Kind, write bool, gid int64) {
+		if k == mon.KCommit && write && gid == atomic.LoadInt64(&updater) {
+			once.Do(func() {
+				close(atCommit)
+				<-resume
+			})
+		}
+	})
+	defer h.MS.SetHook(nil)
+	done := make(chan error, 1)
+	go func() {
+		atomic.StoreInt64(&updater, mon.Goid())
+		done <- Do(func() error {
+			return h.DB.Update(query.NewQuery(name).Where(query.Field("g").Eq(int64(1))), map[string]interface{}{"b": int64(28)})
+		})
+	}()
+	select {
+	case <-atCommit:
+	case e := <-done:
+		c.Violate("conc:phantom:setup", "the bulk Update returned (%v) without reaching a Commit", e)
+		return
+	}
+	core.Tick()
+	repErr := Do(func() error { return h.DB.ReplaceById(name, ids[1], mk(ids[1], 1, -1)) })
+	mid, midErr := read()
+	close(resume)
+	updErr := <-done
+	fin, finErr := read()
+	c.Eval(3)
+	c.Log("Update(g==1, b=28) held at its Commit; ReplaceById(%s, g=1) -> %v; snapshot; Update released -> %v", short(ids[1]), repErr, updErr)
+	if pe, ok := IsPanic(updErr); ok {
+		c.Violate(PanicSig(pe), "Update panicked: %v", pe.Val)
+		return
+	}
+	if midErr != nil || finErr != nil {
+		c.Violate("conc:phantom:read", "reads failed: %v / %v", midErr, finErr)
+		return
+	}
+	if repErr != nil {
+		// the store refused the Replace instead (also a correct way out): it must have had no effect
+		if mid[ids[1]][0] != 0 {
+			c.Violate("conc:phantom:refused-replace-took-effect", "ReplaceById returned %v but the document moved", repErr)
+		}
+		c.Cell("conc-phantom|replace-refused|indexed=%v|%s", indexed, backendClass(backend))
+		return
+	}
+	if updErr != nil {
+		// refused (conflict): no effect at all
+		for _, id := range ids {
+			if fin[id][1] == 28 {
+				c.Violate("conc:phantom:refused-update-took-effect", "Update returned %v but document %s carries b=28", updErr, short(id))
+				return
+			}
+		}
+		c.Cell("conc-phantom|update-refused|indexed=%v|%s", indexed, backendClass(backend))
+		return
+	}
+	// both succeeded. Order U < R: the snapshot (after R) shows U's effect. Order R < U: the moved document is updated.
+	beforeReplace := mid[ids[0]][1] == 28 && mid[ids[2]][1] == 28
+	afterReplace := fin[ids[1]][1] == 28
+	if fin[ids[0]][1] != 28 || fin[ids[2]][1] != 28 {
+		c.Violate("conc:phantom:lost-update", "Update(g==1, b=28) returned success but a document of g==1 does not carry b=28 afterwards: %v", fin)
+		return
+	}
+	if !beforeReplace && !afterReplace {
+		plan := "a full scan"
+		if indexed {
+			plan = "the index on g"
+		}
+		c.Violate("conc:phantom:index-range-bulk-write-vs-point-write:"+backendClass(backend),
+			"on %s, Update(g==1, b=28) selecting through %s and ReplaceById(%s: g 0 -> 1) both succeeded although they overlapped; a snapshot taken after the Replace returned and before the Update returned shows the Replace done and the Update not (b=%d on a g==1 document), yet in the end the moved document was NOT updated (b=%d): no sequential order of the three operations explains that (the Update read its selection before the Replace and committed after it; the store did not see a conflict because the new index entry is a phantom for the range the Update had scanned)",
+			backend, plan, short(ids[1]), mid[ids[0]][1], fin[ids[1]][1])
+		return
+	}
+	c.Cell("conc-phantom|both-succeeded|serializable|indexed=%v|%s", indexed, backendClass(backend))
 }
